@@ -39,7 +39,7 @@ class Shadow:
     def targets(self):
         return [i for i in self.o if not self.owned(i)]
     def refkeys(self, o): return o['kind'] in MAPS and o['kt'] == 'R'
-    def refvals(self, o): return o['vt'] == 'R' if (o['kind'] in ARR or o['kind'] in MAPS) else True
+    def refvals(self, o): return o['vt'] in 'RX' if (o['kind'] in ARR or o['kind'] in MAPS) else True
     def out_edges(self, i):
         o = self.o[i]; e = [int(t[1:]) for t in o['el'] if t[0] == 'o'] if self.refvals(o) else []
         if self.refkeys(o): e += list(o['key'])
@@ -174,6 +174,106 @@ class Shadow:
             o = self.o.pop(i)
             if o['kind'] == 'B' and o['el'][0][0] == 'o' and int(o['el'][0][1:]) in self.o: rec(int(o['el'][0][1:]))
         rec(i); self.emit(f'del {i}')
+    def arem(self, i, idx):
+        """rem(container, value of element idx): removes the FIRST equal element (Array_Rem -> Array_Pop_At; List_Rem)"""
+        j = self.o[i]['el'].index(self.o[i]['el'][idx]); del self.o[i]['el'][j]; self.emit(f'arem {i} {idx}')
+    def ins(self, i, idx, tok):
+        self.o[i]['el'].insert(idx, tok); self.emit(f'ins {i} {idx} {tok}')
+    def concat(self, d, s):
+        self.o[d]['el'] += list(self.o[s]['el']); self.emit(f'concat {d} {s}')
+    # ---- a collection INSIDE a container operation (the k-th ProbeE destructor / Assign call of the operation runs it)
+    def inner_ok(self, op):
+        """is `op` (a tuple: name, container, args...) an operation xin / cin accept?"""
+        name, i = op[0], op[1]
+        if i not in self.o: return False
+        o = self.o[i]
+        if not (o['kind'] in ARR or o['kind'] in MAPS) or o.get('raw') or self.owned(i): return False
+        if name in ('pop', 'arem'): return o['kind'] in ARR and 0 <= op[2] < len(o['el']) and (name == 'pop' or o['vt'] == 'X')
+        if name == 'aset': return o['kind'] in ARR and 0 <= op[2] < len(o['el']) and (op[3] == 'n' or (op[3][0] == 'o' and self.tok_ok(op[3])))
+        if name == 'push': return o['kind'] in ARR and (op[2] == 'n' or (op[2][0] == 'o' and self.tok_ok(op[2])))
+        if name == 'ins':
+            n = len(o['el'])
+            return (o['kind'] in ARR and 0 <= op[2] <= n and not (o['kind'] == 'L' and op[2] == n and n != 0)
+                    and (op[3] == 'n' or (op[3][0] == 'o' and self.tok_ok(op[3]))))
+        if name == 'tset': return o['kind'] in MAPS and o['kt'] != 'R' and (op[3] == 'n' or (op[3][0] == 'o' and self.tok_ok(op[3])))
+        if name == 'trem': return o['kind'] in MAPS and o['kt'] != 'R' and op[2] in o['key']
+        if name == 'clear': return True
+        if name == 'trunc': return o['kind'] in ARR and 1 <= op[2] <= len(o['el'])
+        if name in ('assign', 'concat'):
+            s = op[2]
+            if s not in self.o or s == i or self.o[s].get('raw') or self.owned(s): return False
+            os_ = self.o[s]
+            if name == 'assign':
+                return (o['kind'] in ARR and os_['kind'] in ARR) or (o['kind'] in MAPS and os_['kind'] in MAPS and o['kt'] != 'R' and os_['kt'] != 'R')
+            return o['kind'] in ARR and os_['kind'] in ARR and o['vt'] == os_['vt']
+        return False
+    def tok_ok(self, t):
+        i = int(t[1:]); return i in self.o and not self.owned(i)
+    def inner_calls(self, op):
+        """(destructor calls, Assign calls) of ProbeE elements the operation makes"""
+        name, i = op[0], op[1]; o = self.o[i]; x = o['vt'] == 'X'; n = len(o['el'])
+        if name in ('pop', 'arem', 'trem'): return (1 if x else 0, 0)
+        if name in ('aset', 'push', 'ins'): return (0, 1 if x else 0)
+        if name == 'tset': return (1 if (x and o['kind'] == 'T' and op[2] in o['key']) else 0, 1 if x else 0)
+        if name == 'clear': return (n if x else 0, 0)
+        if name == 'trunc': return (n - op[2] if x else 0, 0)
+        sx = self.o[op[2]]['vt'] == 'X'; m = len(self.o[op[2]]['el'])
+        if name == 'assign': return (n if x else 0, m if sx else 0)
+        return (0, m if sx else 0)
+    def inner_safe(self, op, k):
+        """1: modelled; 0: known-finding territory (freed / unconstructed cells presented); -1: iteration order of the source not modelled"""
+        name, i = op[0], op[1]; o = self.o[i]; nd, na = self.inner_calls(op)
+        if k < 0 or k >= nd + na or name == 'tset': return 1
+        chained = o['kind'] in 'LE'
+        if k < nd: return (1 if (not chained or k == 0) else 0) if name in ('clear', 'assign') else 1
+        j = k - nd
+        if name in ('assign', 'concat'):
+            if o['kind'] == 'A': return 1 if j == na - 1 else 0
+            if o['kind'] in MAPS:
+                os_ = self.o[op[2]]
+                return 1 if (na == 1 or (os_['kind'] == 'E' and os_['kt'] == 'I')) else -1
+        return 1
+    def inner_text(self, op): return ' '.join(str(x) for x in op)
+    def inner_apply(self, op):
+        name, i = op[0], op[1]; o = self.o[i]
+        if name == 'pop': del o['el'][op[2]]
+        elif name == 'arem': del o['el'][o['el'].index(o['el'][op[2]])]
+        elif name == 'aset': o['el'][op[2]] = op[3]
+        elif name == 'push': o['el'].append(op[2])
+        elif name == 'ins': o['el'].insert(op[2], op[3])
+        elif name == 'tset':
+            if op[2] in o['key']: o['el'][o['key'].index(op[2])] = op[3]
+            else: o['key'].append(op[2]); o['el'].append(op[3])
+        elif name == 'trem':
+            j = o['key'].index(op[2]); o['el'][j] = o['el'][-1]; o['key'][j] = o['key'][-1]; o['el'].pop(); o['key'].pop()
+        elif name == 'clear': o['el'] = []; o['key'] = []
+        elif name == 'trunc': del o['el'][op[2]:]
+        elif name == 'assign':
+            os_ = self.o[op[2]]
+            if o['kind'] in MAPS: o['kt'] = os_['kt']; o['key'] = list(os_['key'])
+            o['vt'] = os_['vt']; o['el'] = list(os_['el'])
+        elif name == 'concat': o['el'] += list(self.o[op[2]]['el'])
+    def inner_operands(self, op):
+        """what the caller's frame holds while the operation runs: the container and the operand"""
+        ws = [f'o{op[1]}']
+        if op[0] in ('aset', 'tset', 'ins') and op[3][0] == 'o': ws.append(op[3])
+        if op[0] == 'push' and op[2][0] == 'o': ws.append(op[2])
+        if op[0] in ('assign', 'concat'): ws.append(f'o{op[2]}')
+        return ws
+    def xin(self, k, words, op):
+        """exact mode: `op` with an exact collection inside its k-th ProbeE call.  Whatever the container holds AFTER the operation (plus the
+        operand) must survive; objects that only the intermediate state still presented may survive too (the generator forgets them)."""
+        nd, na = self.inner_calls(op); safe = self.inner_safe(op, k)
+        extra = self.inner_operands(op)
+        self.inner_apply(op)
+        if safe == 1 and k < nd + na:
+            live = self.reach(words=list(words) + extra)
+            for j in list(self.o):
+                if j not in live and not self.israw(j): del self.o[j]
+        self.emit(f"xin {k} {' '.join(words)}{' ' if words else ''}| {self.inner_text(op)}")
+    def cin(self, k, op):
+        self.inner_apply(op)
+        self.emit(f'cin {k} | {self.inner_text(op)}'); self.checkpoint()
     def xcollect(self, words):
         live = self.reach(words=words)
         for i in list(self.o):
@@ -220,10 +320,10 @@ FOCUS_KINDS = ['P', 'P', 'R', 'A', 'L', 'T', 'T', 'U', 'E', 'F', 'H', 'A', 'T']
 
 def rand_types(rng, letter, focus=False):
     """type argument of `new` for a container: mostly the default (reference-bearing), sometimes leaf / mixed types"""
-    if focus and letter in ARR: return rng.choice(['-', 'R', 'I', 'S', 'F', 'I'])
-    if focus and letter in 'TUEF': return rng.choice(['-', 'II', 'SI', 'IS', 'SR', 'IR', 'IF', 'SS', 'RR', 'RI', 'SI', 'II'])
-    if letter in ARR: return rng.choice(['-', '-', 'R', 'I', 'S', 'F', 'I'])
-    if letter in 'TUEF': return rng.choice(['-', '-', '-', 'II', 'SI', 'IS', 'SR', 'RI', 'IF', 'SS', 'RR', 'IR', 'RF', 'SF'])
+    if focus and letter in ARR: return rng.choice(['-', 'R', 'I', 'S', 'F', 'I', 'X'])
+    if focus and letter in 'TUEF': return rng.choice(['-', 'II', 'SI', 'IS', 'SR', 'IR', 'IF', 'SS', 'RR', 'RI', 'SI', 'II', 'IX', 'SX'])
+    if letter in ARR: return rng.choice(['-', '-', 'R', 'I', 'S', 'F', 'I', 'X', 'X'])
+    if letter in 'TUEF': return rng.choice(['-', '-', '-', 'II', 'SI', 'IS', 'SR', 'RI', 'IF', 'SS', 'RR', 'IR', 'RF', 'SF', 'IX', 'IX', 'SX'])
     return '-'
 
 def retype(rng, sh, cands, new_slot_fn):
@@ -316,6 +416,43 @@ def mutate_existing(rng, sh, cands):
         if o['key'] and rng.random() < 0.3: sh.trem(i, rng.choice(o['key']))
         elif tg: sh.tset(i, rng.choice(tg), rand_tok(rng, sh, tg, junk=False))
 
+def rand_inner(rng, sh, cands, tg):
+    """a container operation that calls ProbeE destructors / Assign instances, on a live container; None when there is none"""
+    xs = [c for c in cands if sh.o[c]['kind'] in 'ALTE' and sh.o[c]['vt'] == 'X' and not sh.o[c].get('raw') and not (sh.o[c]['kind'] in MAPS and sh.o[c]['kt'] == 'R')]
+    if not xs: return None
+    def tok(): return rand_tok(rng, sh, tg, junk=False)
+    for _ in range(6):
+        i = rng.choice(xs); o = sh.o[i]; n = len(o['el']); q = rng.random()
+        if o['kind'] in ARR:
+            if q < 0.30 and n: op = ('pop', i, rng.choice([0, 0, n - 1, rng.randrange(n)]))
+            elif q < 0.38 and n: op = ('arem', i, rng.randrange(n))
+            elif q < 0.50 and n: op = ('aset', i, rng.randrange(n), tok())
+            elif q < 0.60: op = ('push', i, tok())
+            elif q < 0.66: op = ('ins', i, rng.choice([0, n // 2, max(0, n - 1), n if o['kind'] == 'A' else 0]), tok())
+            elif q < 0.74: op = ('clear', i)
+            elif q < 0.82 and n: op = ('trunc', i, rng.randrange(1, n + 1))
+            else:
+                srcs = [c for c in xs if c != i and sh.o[c]['kind'] in ARR]
+                if not srcs: continue
+                op = (rng.choice(['assign', 'concat']), i, rng.choice(srcs))
+        else:
+            if q < 0.35 and o['key']: op = ('trem', i, rng.choice(o['key']))
+            elif q < 0.75: op = ('tset', i, rng.choice(o['key']) if (o['key'] and rng.random() < 0.5) else rng.choice([rng.randrange(-5, 40), rng.randrange(40) * 1265 + 3]), tok())
+            elif q < 0.85: op = ('clear', i)
+            else:
+                srcs = [c for c in xs if c != i and sh.o[c]['kind'] in MAPS]
+                if not srcs: continue
+                op = ('assign', i, rng.choice(srcs))
+        if sh.inner_ok(op): return op
+    return None
+
+def rand_k(rng, sh, op):
+    """a call index at which the collection is modelled (mostly inside the operation, sometimes past its last call: no collection)"""
+    nd, na = sh.inner_calls(op); n = nd + na
+    ks = [k for k in range(n) if sh.inner_safe(op, k) == 1]
+    if not ks or rng.random() < 0.06: return n + rng.randrange(2)
+    return rng.choice([ks[0], ks[-1], rng.choice(ks), rng.choice(ks)])
+
 def attach(sh, h, x):
     """store a pointer to x into the holder h (kinds R P: slot 0; A L H: push)"""
     if sh.o[h]['kind'] in 'RP': sh.store(h, 0, f'o{x}')
@@ -328,12 +465,16 @@ def after_raise(rng, sh, marked, probe):
     for _ in range(rng.randrange(0, 3)): mutate_existing(rng, sh, list(sh.o))
     if rng.random() < 0.75:
         hs = [i for i in marked if i in sh.o and sh.o[i]['kind'] in 'RPALH' and i != probe
-              and not (sh.o[i]['kind'] in ARR and sh.o[i]['vt'] != 'R')]
+              and not (sh.o[i]['kind'] in ARR and sh.o[i]['vt'] not in 'RX')]
         xs = [i for i in sh.o if i not in marked and i != probe and not sh.owned(i) and not sh.israw(i)]
         if hs and xs: attach(sh, rng.choice(hs), rng.choice(xs))
     for _ in range(rng.randrange(0, 3)): mutate_existing(rng, sh, list(sh.o))
 
-def gen_exact(rng, nops, maxobj, ncollect, focus=False):
+def mk_x(rng, sh, slot=None):
+    """a container of ProbeE elements / values"""
+    l = rng.choice('ALTE'); return sh.new(l, arg='X' if l in ARR else rng.choice(['IX', 'IX', 'SX']), slot=slot)
+
+def gen_exact(rng, nops, maxobj, ncollect, focus=False, mid=False):
     sh = Shadow(False); sh.focus = focus
     every = max(3, nops // max(1, ncollect))
     for step in range(nops):
@@ -369,6 +510,14 @@ def gen_exact(rng, nops, maxobj, ncollect, focus=False):
         elif r < 0.08 and alive:
             c = [i for i in alive if not sh.has_incoming(i)]
             if c: sh.delete(rng.choice(c))
+        elif r < (0.30 if mid else 0.12) and not sh.stale:
+            op = rand_inner(rng, sh, alive, sh.targets())
+            if op is None:
+                if len(alive) < maxobj: mk_x(rng, sh)
+            else:
+                k = rand_k(rng, sh, op)
+                tg = sh.targets()
+                sh.xin(k, [rand_tok(rng, sh, tg) for _ in range(rng.choice([0, 0, 1, 2]))], op)
         elif len(alive) >= maxobj:
             mutate(rng, sh, lambda: list(sh.o), lambda: None) if rng.random() < 0.9 else sh.xcollect([])
         else:
@@ -376,7 +525,7 @@ def gen_exact(rng, nops, maxobj, ncollect, focus=False):
     sh.xcollect([])
     return sh
 
-def gen_full(rng, nops, nslots, focus=False):
+def gen_full(rng, nops, nslots, focus=False, mid=False):
     sh = Shadow(True); sh.focus = focus
     def live(): return sorted(sh.reach(slots=True) & set(sh.o))
     for step in range(nops):
@@ -401,6 +550,12 @@ def gen_full(rng, nops, nslots, focus=False):
                         if hs: sh.store(rng.choice(hs), 0, f'o{x}'); sh.root(s_, 'n')
                 sh.collect()
         elif r < 0.24: sh.churn(rng.choice([1, 5, 20, 60, 150]))
+        elif r < (0.40 if mid else 0.29):
+            # a threshold collection INSIDE a container operation (the k-th ProbeE destructor / Assign call allocates past the threshold)
+            free = [i for i in lv if not sh.owned(i)]
+            op = rand_inner(rng, sh, lv, free)
+            if op is None: mk_x(rng, sh, rng.randrange(nslots))
+            else: sh.cin(rand_k(rng, sh, op), op)
         elif r < 0.26:
             # explicit del of an object that has just become unreachable (before any allocation)
             c = [i for i in sh.o if i not in lv and i not in sh.ghost and not sh.has_incoming(i)]
@@ -680,6 +835,79 @@ def shape_cases(quick):
         sh.collect(); sh.churn(10); sh.collect()
         cs.append(Case('full_raise_then_attach', sh.lines, meta=dict(stats=sh.stats)))
     fullraise()
+    # ---- a collection INSIDE a container operation: the container is the sole path to the objects its elements point to
+    def mid_matrix(sh):
+        for letter, arg in (('A', 'X'), ('L', 'X'), ('T', 'IX'), ('E', 'IX'), ('T', 'SX')):
+            seqk = letter in ARR
+            def build(n):
+                c = sh.new(letter, arg=arg); objs = []
+                for j in range(n):
+                    x = sh.new('P', arg=str([1, 2, 8][j % 3])); objs.append(x)
+                    if seqk: sh.push(c, f'o{x}')
+                    else: sh.tset(c, 10 * j + 3, f'o{x}')
+                return c, objs
+            # removal of the first / a middle / the last element, collection inside the removed element's destructor
+            for pos in (0, 2, 4):
+                c, objs = build(5)
+                sh.xin(0, [], ('pop', c, pos) if seqk else ('trem', c, 10 * pos + 3))
+                sh.xcollect([f'o{c}'])
+            if seqk:
+                c, objs = build(4); sh.aset(c, 2, f'o{objs[0]}')
+                sh.xin(0, [], ('arem', c, 2)); sh.xcollect([f'o{c}'])      # rem(value): the first equal element goes
+            # replacement and insertion: the old value's object may go, everything else stays
+            c, objs = build(4); y = sh.new('P', arg='2')
+            sh.xin(0, [], ('aset', c, 1, f'o{y}') if seqk else ('tset', c, 13, f'o{y}'))
+            if not seqk:
+                c2, o2 = build(3); z = sh.new('R')
+                sh.xin(1, [f'o{c}'], ('tset', c2, 13, f'o{z}'))               # Table: the old value's destructor is the second call
+                sh.xin(0, [f'o{c}'], ('tset', c2, 999, f'o{o2[0]}'))
+                sh.xcollect([f'o{c2}', f'o{c}'])
+            else:
+                for j in range(7):                                           # crosses Array_Reserve_More (realloc moves the block)
+                    z = sh.new('P', arg='1'); sh.xin(0, [], ('push', c, f'o{z}') if j % 2 else ('ins', c, [0, 2, len(sh.o[c]['el']) - 1][j % 3], f'o{z}'))
+            sh.xcollect([f'o{c}'])
+            # clear / shrink: every destructor call of an Array / Table; the first of a List / Tree (the later ones: known finding)
+            c, objs = build(4)
+            if seqk:
+                sh.xin(1 if letter == 'A' else 0, [], ('trunc', c, 2)); sh.xcollect([f'o{c}'])
+            for k in ((0, 2, 3) if letter in 'AT' else (0,)):
+                c, objs = build(4); sh.xin(k, [f'o{objs[3]}'], ('clear', c)); sh.xcollect([f'o{c}'])
+            # assign / concat from a container of the same family
+            d, dobjs = build(3); s_, sobjs = build(3) if letter != 'T' else (None, None)
+            if letter == 'T' or letter == 'E':
+                s_ = sh.new('E', arg='IX'); sobjs = []
+                for j in (5, 1, 9):
+                    x = sh.new('R'); sobjs.append(x); sh.tset(s_, j, f'o{x}')
+            nd, na = sh.inner_calls(('assign', d, s_))
+            for k in range(nd + na):
+                if sh.inner_safe(('assign', d, s_), k) == 1:
+                    d, dobjs = build(3); sh.xin(k, [], ('assign', d, s_)); sh.xcollect([f'o{d}', f'o{s_}'])
+            if seqk:
+                d, dobjs = build(2)
+                for k in range(len(sh.o[s_]['el'])):
+                    if sh.inner_safe(('concat', d, s_), k) == 1: sh.xin(k, [], ('concat', d, s_))
+                sh.xcollect([f'o{d}', f'o{s_}'])
+            sh.xcollect([])
+    ex('mid_op_matrix', mid_matrix)
+    def fullmid():
+        sh = Shadow(True)
+        for n_, (letter, arg) in enumerate((('A', 'X'), ('L', 'X'), ('T', 'IX'), ('E', 'IX'))):
+            seqk = letter in ARR
+            c = sh.new(letter, arg=arg, slot=0)
+            for j in range(4):
+                x = sh.new('P', arg=str([1, 2, 8][j % 3]), slot=1 + j)
+                if seqk: sh.push(c, f'o{x}')
+                else: sh.tset(c, 10 * j + 3, f'o{x}')
+                sh.root(1 + j, 'n')
+            sh.churn(40); sh.collect()
+            sh.cin(0, ('pop', c, 0) if seqk else ('trem', c, 3))               # the demo of seeded change c01_h
+            sh.collect()
+            sh.cin(0, ('pop', c, 1) if seqk else ('trem', c, 23))
+            y = sh.new('R', slot=6); sh.cin(0, ('push', c, f'o{y}') if seqk else ('tset', c, 77, f'o{y}')); sh.root(6, 'n')
+            sh.collect(); sh.churn(25)
+            sh.cin(0, ('clear', c)); sh.collect()
+        cs.append(Case('full_mid_op', sh.lines, meta=dict(stats=sh.stats)))
+    fullmid()
     bad = ['mode exact', 'new 0 P 3 -', 'new 0 Q - -', 'new 0 P 2 -', 'new 0 R - -', 'store 0 2 n', 'store 0 0 o9', 'store 0 0 x1', 'push 0 o0', 'new 1 H - -',
            'push 1 n', 'pop 1 0', 'tset 1 0 o0', 'trem 1 0', 'tlsrem 5', 'tls 99 n', 'root 64 n', 'del 7', 'collect', 'churn 3', 'mode full', 'new 2 B 0 -', 'new 3 B 0 -',
            'store 1 0 o0', 'push 1 o0', 'del 0', 'xcollect o0 zz', 'xcollect o1', 'frobnicate', 'new 4 P 1 s70', 'chain 10 0 R -', 'chain 10 3 Q -', 'chain 10 3 R -', 'chain 11 2 R -',
@@ -711,7 +939,7 @@ def mark_clears_first(repo):
 
 class C01(Spec):
     id = 'C01'; engine = 'gcmark'; harness = 'h_gcmark'; driver = 'drv_gcmark'
-    generators = ('GcMark',)
+    generators = ('GcMark', 'GcMid')
     harness_timeout = 600
     @property
     def harness_defines(self):
@@ -742,7 +970,18 @@ class C01(Spec):
                   'C01_collect_safe_box_refuted). The collector before a repair is an explicit OLD variant of the model with its witness kept: clearFirst = false '
                   '(C01_stale_marks_refuted, C01_collect_safe_stale_refuted), remPtrPre (C01_del_null_old_refuted), tlsCallback = false, guarded = false; the withdrawn '
                   'guard of Thread_Mark (80c795e, reverted by 0a0ad73) is the variant Cfg.threadGuarded, refuted by C01_thread_guard_refuted (a Thread object other than '
-                  'current(Thread) as the sole path to objects stored in its table).')
+                  'current(Thread) as the sole path to objects stored in its table). '
+                  'A collection INSIDE a container operation (the destructor or Assign instance of an embedded element allocates past the threshold while '
+                  'Array_Pop_At / Array_Rem / Array_Pop / Array_Push / Array_Set / Array_Clear / Array_Resize, List_Pop_At / List_Pop / List_Rem / List_Push / '
+                  'List_Push_At / List_Set / List_Resize / List_Concat, Table_Set_Move / Table_Rem / Table_Clear / Table_Assign, Tree_Set / Tree_Rem is in '
+                  'progress): Cello/HeapMid.lean runs the statement lists that the translator extracts from Array.c, List.c, Table.c, Tree.c on every run '
+                  '(CelloGen/GcMid.lean: where destruct / assign stand relative to nitems--, List_Unlink, memset, memcpy, free, head = NULL) and records what the '
+                  'Mark instance presents inside every element call; the C01_*_mark_safe theorems prove, for every container content, index and block size, that '
+                  'each such intermediate state reads only constructed elements and presents every element the container keeps (operand excepted), and '
+                  'C01_mid_op_collection_safe turns that into: a collection inside the call does not put on the pending list anything that is reachable when '
+                  'the operation completes. The order `nitems--` before `destruct` in Array_Pop_At is refuted (C01_array_pop_at_dec_first_refuted). Refuted '
+                  'on the unchanged tree (proposed known findings): List_Clear / Tree_Clear_Entry present freed cells to a collection inside the destructor '
+                  'of any element but the first, Array_Assign / Array_Concat (and Array_New) count unconstructed slots while the elements are assigned.')
     level_note = ('Trusted: Lean kernel; axioms propext/Quot.sound/Classical.choice at most; translate/g_gcmark.py (regex over GC.c and the Mark instances); the '
                   'harness/driver comparison (testing); the registry lookup inside GC_Mark_Item is abstracted as a finite map (its correctness is C17). '
                   'Not covered: recursion depth of the C marker (known finding F27: chains of about 10^5 links overflow the C stack), dangling pointers in '
@@ -764,11 +1003,24 @@ class C01(Spec):
             'threshold collections; collections whose mark phase is left by an exception (exact: xraise, the Mark instance of a probe throws — the bits that stay are '
             'compared with the model when they do not depend on enumeration order; full: craise on the real GC_Mark), followed by stores that attach unmarked objects to '
             'holders whose bit stayed set and by further collections; 8-slot probes whose destructor calls del(NULL) swept alone, below a Box and explicitly deleted; '
+            'containers whose elements / values are the probe type ProbeE (letter X: one plain pointer, conservatively scanned; its destructor and its Assign '
+            'instance run a collection when armed): `xin k words | op` (exact mode: the k-th ProbeE destructor / Assign call of pop / arem / aset / push / tset / '
+            'trem / clear / trunc / assign / concat runs mark phases on the words, the container and the operand, then the real GC_Sweep; mark bits and swept set are '
+            'compared with the model run on the intermediate state) and `cin k | op` (full mode: that call allocates until the threshold triggers the real GC_Mark / '
+            'GC_Sweep); the oracle\'s reference is the shadow graph AFTER the operation plus the operand; the matrix kind x operation x position x call index; '
             'chains up to the cap, the matrix leaf-typed target x '
             'reference-bearing source for sequences and maps (direct and via copy+clear), growth after re-typing. '
-            'non-trivial item = a collection that marked at least 2 objects and swept at least 1 (exact mode) or a forced collection with at least 2 live '
+            'non-trivial item = a collection (between operations or inside one) that marked at least 2 objects and swept at least 1 (exact mode) or a forced collection with at least 2 live '
             'objects (full mode); distinct = distinct op-file prefix up to that collection.')
-    trusted_base = ('translate/g_gcmark.py (regex over src/GC.c, Mark instances of Array/List/Table/Tree/Tuple/Thread, container structs, writers of the type members)',
+    trusted_base = ('translate/g_gcmark.py (regex over src/GC.c, Mark instances of Array/List/Table/Tree/Tuple/Thread, container structs, writers of the type members; '
+                    'GcMid: the order of the presentation-relevant statements of the container operations, found by scanning the function regions for a fixed set of '
+                    'statement patterns — an unknown write to nitems / nslots / data / head / root, or an unknown destruct / assign / free / mem* call is an ExtractError; '
+                    'statements that match no pattern are taken to be neutral)',
+                    'Cello/HeapMid.lean gives each statement kind its effect on what the Mark instance presents (Mach.step) and supplies the loop structure; the machine is '
+                    'compared with the implementation through xin (exact marked / swept sets inside the call; R mid=agree: the machine ends in the container the operation produces)',
+                    'a collection inside an element call is placed AFTER the element\'s Assign instance has stored the new value (ProbeE_Assign copies, then allocates) and at the '
+                    'start of the destructor; comparison / hash functions of keys that allocate (a collection inside eq / cmp during Table_Set_Move\'s displacement loop, when an '
+                    'entry lives in the swap space only) are not covered',
                     'the content of a container after assign / copy (element values, types) is checked by the harness against its shadow, not proved (C04/C10 cover assign)',
                     'harness/h_gcmark.c + lean/Driver/GcMark.lean + lean/Cello/HeapOps.lean (correspondence is testing)',
                     'the registry probe inside GC_Mark_Item / GC_Sweep is modelled as a finite map (C17 covers the registry)',
@@ -793,8 +1045,14 @@ class C01(Spec):
                    'and that no Tuple / user Mark instance which has become garbage (and may not have been swept yet) pointed to: otherwise the next collection '
                    'reads freed memory (known finding KF-C01-dangling-tuple-item, witness corpus/kf_c01_dangling_tuple.ops)',
                    'full mode: survivors may exceed the reachable set (conservative stack scan); only reachable objects are used by later ops',
+                   'a collection inside a container operation is generated only where the unchanged tree presents constructed cells: not inside the destructor of any element '
+                   'but the first during List_Clear / Tree_Clear_Entry (resize(x, 0), assign(x, y) on a List / Tree: proposed finding KF-C01-clear-freed-cells, witness '
+                   'corpus/kf_c01_clear_freed_cells.ops), not inside the Assign call of any element but the last during Array_Assign / Array_Concat (proposed finding '
+                   'KF-C01-array-uninit-slots, witness corpus/kf_c01_array_uninit_slots.ops); assign into a Table / Tree with a collection in the fill phase only from a Tree with '
+                   'Int keys (the iteration order of a Table is C02\'s model); destructors that allocate run only inside an armed container operation, never from the release '
+                   'loop of GC_Sweep (KF-C06-dtor-alloc)',
                    're-typing: assign only sequence<-sequence (Array, List; also from a heap Tuple without Box items), map<-map (Table, Tree), Tuple<-Tuple, target != source; '
-                   'element types Ref / Int / String / Float (no Box elements: two Boxes would own one target). A heap Tuple assigned from an Array / List stores pointers '
+                   'element types Ref / Int / String / Float / ProbeE (no Box elements: two Boxes would own one target). A heap Tuple assigned from an Array / List stores pointers '
                    'INTO the source\'s element storage (dangling after the source changes: same family as KF-C01-dangling-tuple-item) and is not generated')
     def cases(self, rng, tier, boost=1):
         quick = tier == 'quick'
@@ -805,19 +1063,26 @@ class C01(Spec):
             big = (i % 9 == 8)
             if quick: nops, maxobj = (420, 400) if big else (rng.randrange(30, 130), rng.randrange(8, 60))
             else: nops, maxobj = (rng.choice([2500, 5000]), rng.choice([1200, 3000])) if (i % 40 == 39) else ((900, 600) if big else (rng.randrange(30, 250), rng.randrange(8, 120)))
-            sh = gen_exact(rng, nops, maxobj, ncollect=max(2, nops // rng.choice([8, 15, 30])), focus=(i % 3 == 1))
+            sh = gen_exact(rng, nops, maxobj, ncollect=max(2, nops // rng.choice([8, 15, 30])), focus=(i % 3 == 1), mid=(i % 4 == 2))
             cs.append(Case(f'exact{i}', sh.lines, meta=dict(stats=sh.stats)))
         nfu = (50 if quick else 1200) * boost
         for i in range(nfu):
             nops = rng.randrange(60, 220) if quick else rng.randrange(60, 900)
-            sh = gen_full(rng, nops, rng.choice([3, 6, 12]), focus=(i % 3 == 1))
+            sh = gen_full(rng, nops, rng.choice([3, 6, 12]), focus=(i % 3 == 1), mid=(i % 4 == 2))
             cs.append(Case(f'full{i}', sh.lines, meta=dict(stats=sh.stats)))
         return cs
     def _collections(self, case, c_out):
         """(index of op line, observation) for every collection observation"""
         ops = [l for l in case.lines if l.strip() and not l.startswith('#')]
         obs = core.lines_with('O ', c_out)
-        return [(i, o) for i, (op, o) in enumerate(zip(ops, obs)) if o.startswith('O x ') or o.startswith('O c ')], ops
+        out = []; j = 0
+        for i, op in enumerate(ops):
+            if j >= len(obs): break
+            o = obs[j]; j += 1
+            # `xin`: the collection inside the operation prints its own `O x` line before the operation's `O xin` line
+            if op.startswith('xin ') and o.startswith('O x ') and j < len(obs): j += 1
+            if o.startswith('O x ') or o.startswith('O c '): out.append((i, o))
+        return out, ops
     def nontrivial_items(self, case, c_out, m_out):
         cols, ops = self._collections(case, c_out)
         items = set(); h = hashlib.sha1(); last = 0; prev_live = None
@@ -843,6 +1108,11 @@ class C01(Spec):
                 acc['exact_collections'] = acc.get('exact_collections', 0) + 1
                 acc['marked'] = acc.get('marked', 0) + int(m.group(1)); acc['swept'] = acc.get('swept', 0) + int(m.group(2))
                 acc['max_marked'] = max(acc.get('max_marked', 0), int(m.group(1)))
+            m = re.match(r'O (xin|cin) calls=(\d+) fired=(\d)', l)
+            if m:
+                acc[f'mid_op_{m.group(1)}'] = acc.get(f'mid_op_{m.group(1)}', 0) + 1
+                acc[f'mid_op_{m.group(1)}_fired'] = acc.get(f'mid_op_{m.group(1)}_fired', 0) + int(m.group(3))
+                acc['mid_op_max_calls'] = max(acc.get('mid_op_max_calls', 0), int(m.group(2)))
         for l in core.lines_with('R ', m_out):
             acc['model_' + l[2:].replace('=', '_')] = acc.get('model_' + l[2:].replace('=', '_'), 0) + 1
         for l in core.lines_with('I ', c_out):
@@ -861,6 +1131,8 @@ class C01(Spec):
                 return f'worklist marker `{ls[i]}` but recursive marker: `{ls[i + 1]}`'
             if ls[i + 1] == 'R rel=differ':
                 return f'collection `{ls[i - 1]}`: no pending item owns anything, yet Cello.Heap.release does not finalise exactly the pending list'
+            if ls[i + 1] == 'R mid=differ':
+                return f'operation `{ls[i]}`: the state machine of Cello.Heap.Mid (statement lists of the current source) does not end in the container the operation produces, or makes another number of element calls'
             if ls[i + 1] == 'R retype=differ':
                 return f're-typing op `{ls[i]}`: the interpreter\'s object differs from Obj.assignFrom / copyOf / cleared (the operation the theorems are about)'
         return None
@@ -869,6 +1141,9 @@ class C01(Spec):
         if d is None and 'R retype=differ' in m_out:
             obs = core.lines_with('O ', m_out)
             return (len(obs), '<model-internal>', 'R retype=differ: a re-typing op of the interpreter is not Obj.assignFrom / copyOf / cleared')
+        if d is None and 'R mid=differ' in m_out:
+            obs = core.lines_with('O ', m_out)
+            return (len(obs), '<model-internal>', 'R mid=differ: the statement lists of the current source, run on Cello.Heap.Mid, do not produce the container the operation produces')
         return d
 
 SPEC = C01()
